@@ -156,6 +156,45 @@ fn check_batch(names: &[String], st: &mut Stats, order0: u64, stream_too: bool) 
             }
         }
     }
+    // the verdict about a name is a function of the name: asked again - on the same handle, on a later opening of the entry,
+    // on a clone of the archive - the accessors answer as they did the first time (judged again in full)
+    {
+        let mut cl = ar.clone();
+        for (pass, which) in [(1, "seekable/second-opening"), (2, "seekable/clone")] {
+            let a = if pass == 1 { &mut ar } else { &mut cl };
+            for (i, n) in names.iter().enumerate() {
+                st.evals += 1;
+                let r = guard(|| {
+                    let f = a.by_index_raw(i).map_err(|e| e.to_string())?;
+                    let e1 = f.enclosed_name().map(|p| p.to_path_buf());
+                    let m1 = f.mangled_name();
+                    let e2 = f.enclosed_name().map(|p| p.to_path_buf());
+                    let m2 = f.mangled_name();
+                    Ok::<_, String>((e1, m1, e2, m2))
+                });
+                match r {
+                    Ok(Ok((e1, m1, e2, m2))) => {
+                        if e1 != e2 || m1 != m2 {
+                            st.viol(
+                                format!("accessor/answer-changes-when-asked-again/{which}"),
+                                format!("{}: enclosed_name() {:?} then {:?}, mangled_name() {:?} then {:?} on one handle", show(n.as_bytes()), e1, e2, m1, m2),
+                                json!({"kind":"name","name":crate::util::hex(n.as_bytes()),"route":"seekable"}),
+                                order0 + i as u64,
+                            );
+                        }
+                        check_one(n, e2.as_deref(), &m2, which, st, order0 + i as u64);
+                    }
+                    Ok(Err(e)) => st.viol("machinery/by_index_raw", e, json!({"kind":"name","name":crate::util::hex(n.as_bytes())}), order0 + i as u64),
+                    Err(p) => st.viol(
+                        format!("panic/accessor/{}", panic_site(&p)),
+                        format!("accessor panicked for {}: {p}", show(n.as_bytes())),
+                        json!({"kind":"name","name":crate::util::hex(n.as_bytes()),"route":"seekable"}),
+                        order0 + i as u64,
+                    ),
+                }
+            }
+        }
+    }
     if stream_too {
         // the same names through the streaming reader's ZipFile
         let mut cur = Cursor::new(&bytes[..]);
